@@ -188,3 +188,56 @@ impl G {
     }
 }
 pub fn args_of(vs: std::vec::Vec<IDLValue>) -> IDLArgs { IDLArgs { args: vs } }
+
+impl G {
+    /// a supertype of `t` (one or more upgrade steps of the kinds the spec allows)
+    pub fn supertype(&mut self, env: &TypeEnv, t: &Type, depth: usize) -> Type {
+        use TypeInner::*;
+        let c = self.rng.gen_range(0..14);
+        if c == 0 { return ty(Opt(t.clone())); }
+        if c == 1 { return ty(Reserved); }
+        if depth == 0 { return t.clone(); }
+        match t.as_ref() {
+            Var(id) if c < 8 => { let b = env.0.get(id).unwrap().clone(); self.supertype(env, &b, depth - 1) }
+            Nat if c < 9 => ty(Int),
+            Empty => self.typ(1),
+            Opt(a) => ty(Opt(self.supertype(env, a, depth - 1))),
+            Vec(a) => ty(Vec(self.supertype(env, a, depth - 1))),
+            Record(fs) => {
+                let mut out: std::vec::Vec<Field> = vec![];
+                for f in fs { if self.rng.gen_bool(0.75) { out.push(Field { id: f.id.clone(), ty: self.supertype(env, &f.ty, depth - 1) }); } }
+                if self.rng.gen_bool(0.4) {
+                    let extra = [4u32, 6, 99, 1000].choose(&mut self.rng).cloned().unwrap();
+                    if !fs.iter().any(|f| f.id.get_id() == extra) {
+                        let t = match self.rng.gen_range(0..3) { 0 => ty(Opt(self.typ(1))), 1 => ty(Null), _ => ty(Reserved) };
+                        out.push(Field { id: Rc::new(Label::Id(extra)), ty: t });
+                    }
+                }
+                out.sort_by_key(|f| f.id.get_id());
+                ty(Record(out))
+            }
+            Variant(fs) => {
+                let mut out: std::vec::Vec<Field> = fs.iter().map(|f| Field { id: f.id.clone(), ty: self.supertype(env, &f.ty, depth - 1) }).collect();
+                if self.rng.gen_bool(0.4) {
+                    let extra = [4u32, 6, 99, 1000].choose(&mut self.rng).cloned().unwrap();
+                    if !out.iter().any(|f| f.id.get_id() == extra) { out.push(Field { id: Rc::new(Label::Id(extra)), ty: self.typ(1) }); }
+                }
+                out.sort_by_key(|f| f.id.get_id());
+                ty(Variant(out))
+            }
+            Func(f) => {
+                // supertype of a function: takes fewer/narrower arguments?  no: args contravariant (new args may be *sub*types), results covariant
+                let mut g = f.clone();
+                if self.rng.gen_bool(0.3) { g.args.push(self.typ(1)); }                     // expected has more args: fine only if ... left to the referee
+                if self.rng.gen_bool(0.3) { g.rets.pop(); }
+                g.rets = g.rets.iter().map(|a| if self.rng.gen_bool(0.4) { self.supertype(env, a, depth - 1) } else { a.clone() }).collect();
+                ty(Func(g))
+            }
+            Service(ms) => {
+                let out: std::vec::Vec<(String, Type)> = ms.iter().filter(|_| self.rng.gen_bool(0.8)).map(|(n, f)| (n.clone(), f.clone())).collect();
+                ty(Service(out))
+            }
+            _ => t.clone(),
+        }
+    }
+}
